@@ -259,7 +259,7 @@ impl Watchdog {
         // C10 and C13 cases enumerate / repeat whole command runs: one case is long by design
         let long = matches!(prop, "C10" | "C13");
         let limit = match tier {
-            Tier::Quick => Duration::from_secs(if long { 600 } else { 180 }),
+            Tier::Quick => Duration::from_secs(if long { 600 } else { 300 }),
             Tier::Thorough => Duration::from_secs(if long { 3600 } else { 900 }),
         };
         let w = Arc::new(Self {
@@ -297,10 +297,14 @@ impl Watchdog {
     pub fn enter(&self, case: impl FnOnce() -> String) -> usize {
         let id = self.next.fetch_add(1, Ordering::SeqCst);
         let entry = (Instant::now(), case());
+        // (the string's heap buffer stays where it is while it sits in the map)
+        CRASH_CASE_LEN.store(entry.1.len(), Ordering::SeqCst);
+        CRASH_CASE_PTR.store(entry.1.as_ptr().cast_mut(), Ordering::SeqCst);
         _ = self.slots.lock().unwrap().insert(id, entry);
         id
     }
     pub fn leave(&self, id: usize) {
+        CRASH_CASE_PTR.store(std::ptr::null_mut(), Ordering::SeqCst);
         _ = self.slots.lock().unwrap().remove(&id);
     }
 }
@@ -443,6 +447,7 @@ where
             children.push(child);
         }
         for child in children {
+            let pid = child.id();
             let outp = child.wait_with_output().expect("worker output");
             let text = String::from_utf8_lossy(&outp.stdout);
             let mut got = false;
@@ -459,6 +464,21 @@ where
                     println!("{line}");
                 }
             }
+            let sig = std::os::unix::process::ExitStatusExt::signal(&outp.status);
+            let crash = crash_file(ctx.prop, pid);
+            if let (false, Some(sig), Ok(case)) = (got, sig.filter(|s| CRASH_SIGNALS.contains(s)), std::fs::read_to_string(&crash)) {
+                // the library took the whole worker process down: that is the outcome of the case
+                _ = std::fs::remove_file(&crash);
+                let v = serde_json::from_str::<Value>(&case).unwrap_or(Value::String(case));
+                let v = v.get("case").cloned().unwrap_or(v);
+                report.violations.push((
+                    format!("the library crashed the worker process (signal {sig}: abort / fatal signal) while running this case; the other cases of that worker were not run"),
+                    v,
+                ));
+                report.worker_failures += 1;
+                continue;
+            }
+            _ = std::fs::remove_file(&crash);
             if !got {
                 println!(
                     "INCONCLUSIVE property={} sub={} a worker ended without a report (status {:?})",
@@ -983,6 +1003,82 @@ pub fn run_detecting_deadlock<T: Send + 'static>(f: impl FnOnce() -> T + Send + 
                     ));
                 }
             }
+        }
+    }
+}
+
+// ------------------------------------------------------------------------------------------------
+// attribution of a crashed worker process
+// ------------------------------------------------------------------------------------------------
+
+static CRASH_CASE_PTR: std::sync::atomic::AtomicPtr<u8> = std::sync::atomic::AtomicPtr::new(std::ptr::null_mut());
+static CRASH_CASE_LEN: AtomicUsize = AtomicUsize::new(0);
+static CRASH_PATH: std::sync::OnceLock<std::ffi::CString> = std::sync::OnceLock::new();
+static CRASH_REPLAY_LINE: std::sync::OnceLock<Vec<u8>> = std::sync::OnceLock::new();
+
+/// signals by which a library defect (failed allocation of an absurd size, abort in a destructor,
+/// stack overflow, …) takes the whole process down; SIGKILL (the kernel's OOM killer, `vp stop`) is
+/// deliberately not among them
+const CRASH_SIGNALS: [i32; 5] = [libc::SIGABRT, libc::SIGSEGV, libc::SIGBUS, libc::SIGILL, libc::SIGFPE];
+
+extern "C" fn on_crash(sig: libc::c_int) {
+    // only raw system calls from here on
+    unsafe {
+        let p = CRASH_CASE_PTR.load(Ordering::SeqCst);
+        let n = CRASH_CASE_LEN.load(Ordering::SeqCst);
+        if let Some(line) = CRASH_REPLAY_LINE.get() {
+            // `vp replay`: the crash is the outcome of the replay
+            _ = libc::write(1, line.as_ptr().cast(), line.len());
+            libc::_exit(1);
+        }
+        if let (Some(path), false) = (CRASH_PATH.get(), p.is_null()) {
+            let fd = libc::open(path.as_ptr(), libc::O_WRONLY | libc::O_CREAT | libc::O_TRUNC, 0o644);
+            if fd >= 0 {
+                let mut off = 0usize;
+                while off < n {
+                    let w = libc::write(fd, p.add(off).cast(), n - off);
+                    if w <= 0 {
+                        break;
+                    }
+                    off += w as usize;
+                }
+                _ = libc::close(fd);
+            }
+        }
+        _ = libc::signal(sig, libc::SIG_DFL);
+        _ = libc::raise(sig);
+    }
+}
+
+fn crash_file(prop: &str, pid: u32) -> PathBuf {
+    Path::new(VERIF_ROOT).join("found").join(prop).join(format!("crash-{pid}.case"))
+}
+
+/// worker side: when the process dies by one of `CRASH_SIGNALS`, leave the case that was running
+/// behind for the parent
+pub fn install_crash_handler(prop: &str) {
+    let path = crash_file(prop, std::process::id());
+    if let Some(dir) = path.parent() {
+        _ = std::fs::create_dir_all(dir);
+    }
+    _ = CRASH_PATH.set(std::ffi::CString::new(path.to_string_lossy().as_bytes()).expect("path"));
+    for s in CRASH_SIGNALS {
+        // SAFETY: installing a handler that only performs raw system calls
+        unsafe {
+            _ = libc::signal(s, on_crash as *const () as usize);
+        }
+    }
+}
+
+/// replay side: a crash of the process is reported as the violation it is
+pub fn install_replay_crash_handler(prop: &str, file: &str) {
+    _ = CRASH_REPLAY_LINE.set(
+        format!("VIOLATION property={prop} replay={file}\n  the library crashed the process (abort / fatal signal) while running this case\n").into_bytes(),
+    );
+    for s in CRASH_SIGNALS {
+        // SAFETY: as above
+        unsafe {
+            _ = libc::signal(s, on_crash as *const () as usize);
         }
     }
 }
